@@ -21,12 +21,18 @@ ProbeFails(e, t) ==
                  \cup (IF MsgJudged(t, p.v) /\ p.msg \notin Msgs(t, p.v) THEN {F(e, "message", "reject", "custom-message", i, p.v)} ELSE {})
                  \cup (IF TagJudged(t, p.v) /\ p.tag \notin Tags(t, p.v) THEN {F(e, "app-tag", "reject", "custom-app-tag", i, p.v)} ELSE {})
          : i \in 1..Len(e.probes)}
+\* e.sibs: the chains of the sibling leaves compiled in the same module set (e.mi: position of this leaf among
+\* them).  The module set compiles iff every chain does; everything else about a leaf depends on its own chain only.
 Fails(e) ==
   LET r == CompileChain(e.chain)
       d == DefaultOf(e.chain)
-  IN IF ~r.j THEN {}
-     ELSE IF r.ok # e.compiled THEN {F(e, "compile", IF r.ok THEN "ok" ELSE "refuse", r.why, 0, << >>)}
-     ELSE IF ~r.ok THEN {}
+      rs == [i \in 1..Len(e.sibs) |-> CompileChain(e.sibs[i])]
+      allok == r.ok /\ \A i \in 1..Len(rs) : rs[i].ok
+      gj == (r.j /\ \A i \in 1..Len(rs) : rs[i].j) \/ (r.j /\ ~r.ok) \/ \E i \in 1..Len(rs) : rs[i].j /\ ~rs[i].ok
+      why == IF ~r.ok THEN r.why ELSE IF allok THEN "ok" ELSE rs[CHOOSE i \in 1..Len(rs) : ~rs[i].ok].why
+  IN IF ~gj THEN {}
+     ELSE IF allok # e.compiled THEN (IF e.mi = 1 THEN {F(e, "compile", IF allok THEN "ok" ELSE "refuse", why, 0, << >>)} ELSE {})
+     ELSE IF ~allok THEN {}
      ELSE (IF d.has # e.hasDef \/ (d.has /\ d.v # e.def) THEN {F(e, "default", "ok", IF d.has THEN "inherited-default" ELSE "no-default", 0, d.v)} ELSE {})
           \cup ProbeFails(e, r.t)
 TInit == l = 1 /\ nfail = 0
